@@ -748,6 +748,74 @@ def skeleton_facts():
     return d
 
 
+LOOP_MEMBERS = ("SUCDi", "FRD7")      # the one thermodynamic loop of the shipped textbook model
+
+
+def _loopless_order_job(job):
+    """One request of loopless FVA on the shipped textbook model: single-item calls, then the list in the given order."""
+    import warnings
+    import logging
+    warnings.simplefilter("ignore")
+    logging.disable(logging.CRITICAL)
+    from cobra.io import load_model
+    from cobra.flux_analysis import flux_variability_analysis as fva
+    m = load_model("textbook")
+    frac, items, runs = job["fraction"], job["items"], job["runs"]
+    single = {}
+    for i in items:
+        d = fva(m, [i], loopless=True, fraction_of_optimum=frac, processes=1)
+        single[i] = [float(d.at[i, "minimum"]), float(d.at[i, "maximum"])]
+    diffs = []
+    for procs, order in runs:
+        d = fva(m, order, loopless=True, fraction_of_optimum=frac, processes=procs)
+        for i in order:
+            got = [float(d.at[i, "minimum"]), float(d.at[i, "maximum"])]
+            if max(abs(a - b) for a, b in zip(got, single[i])) > 1e-6 * max(1.0, max(abs(x) for x in single[i])):
+                diffs.append({"item": i, "in_the_list": got, "alone": single[i], "processes": procs, "order": order})
+    return {"job": job, "diffs": diffs, "n_runs": len(runs), "n_single": len(items)}
+
+
+def loopless_order_monitor(rep, args):
+    """Loopless FVA (not part of the Gallina schedule model: loopless_fva_iter is abstract there) on the shipped textbook
+    model with fraction_of_optimum < 1: every item's row must equal the row of asking for that item alone, for every
+    order and process count.  Rows of the two reactions that form the model's loop are a known finding (the value
+    loopless_fva_iter returns for them depends on the vertex the solver happens to stop at); every other reaction never
+    loses its optimum in the cycle-free projection, so its row is the plain FVA row whatever ran before."""
+    from cobra.io import load_model
+    import logging
+    logging.disable(logging.CRITICAL)
+    ids = [r.id for r in load_model("textbook").reactions]
+    rng = random.Random(args.seed + 14)
+    jobs = []
+    for k in range(6 if args.tier == "quick" else 40):
+        items = rng.sample([i for i in ids if i not in LOOP_MEMBERS], 5)
+        items += [LOOP_MEMBERS[k % 2]] if k % 3 else list(LOOP_MEMBERS)
+        runs = []
+        for procs in (1, 2, 3):
+            order = list(items)
+            rng.shuffle(order)
+            if procs == 1:
+                order.sort(key=lambda i: i not in LOOP_MEMBERS)       # the loop members first: they run before the others
+            runs.append([procs, order])
+        jobs.append({"fraction": rng.choice([0.9, 0.5, 0.75]), "items": items, "runs": runs})
+    out = {"requests": len(jobs), "runs": 0, "single_item_calls": 0, "rows_differing_on_loop_members": 0, "aborted": 0}
+    for job, (st, res) in zip(jobs, K.map_isolated(_loopless_order_job, jobs, chunk=2, timeout=900)):
+        if st != "ok":
+            out["aborted"] += 1
+            continue
+        out["runs"] += res["n_runs"]
+        out["single_item_calls"] += res["n_single"]
+        for d in res["diffs"]:
+            on_loop = d["item"] in LOOP_MEMBERS
+            out["rows_differing_on_loop_members"] += on_loop
+            rep.violation({"monitor": "loopless-fva-order", "model": "textbook", "item_on_the_loop": on_loop},
+                          {"failed": "loopless FVA row of an item differs from asking for that item alone",
+                           "model": "textbook", "fraction_of_optimum": job["fraction"], "difference": d,
+                           "how_to_read": "flux_variability_analysis(load_model('textbook'), order, loopless=True, "
+                                          "fraction_of_optimum=f, processes=p) against the same call with [item]"})
+    return out
+
+
 def main():
     args = K.parse_args([a for a in sys.argv[1:] if a != "--worker"])
     rep = K.Reporter(PROP, args.tier, args.seed)
@@ -886,12 +954,14 @@ def main():
             "impl_wall_s": round(t_impl, 1),
             "generated_skeleton_facts": skeleton_facts(),
             "harness_faults": harness_faults[:5],
+            "loopless_order_monitor": loopless_order_monitor(rep, args) if not args.replay else {},
         }
         ev = {"coverage": cov,
               "assumptions": ["Real process scheduling, pickling of the model into the workers and multiprocessing itself "
                               "are explored (process counts, permutations, injected delays, hash seeds), not proved.",
                               "Solver warm start is assumed not to change optimal values.",
-                              "loopless_fva_iter is abstract (assumed to restore, C13).",
+                              "loopless_fva_iter is abstract in the model (assumed to restore, C13); loopless FVA is covered by a monitor on "
+                              "the shipped textbook model only (order / process count against single-item calls).",
                               "Sampling: reproducibility and validity are tested, not modelled."]}
         rc = rep.finish(ev)
         if harness_faults and rc == 0:
